@@ -225,6 +225,11 @@ def planted(res):
     ex.append((X.math("<mrow><mn>%s</mn><mfrac><mn>%s</mn><mn>%s</mn></mfrac><mo>-</mo><mfrac><mn>%s</mn><mn>10</mn></mfrac></mrow>" % ("41", "52", "35", d)), ["41", "52", "35", d]))
     ex.append((X.math("<mrow><mo>(</mo><mtable><mtr><mtd><mn>%s</mn></mtd><mtd><mn>%s</mn></mtd></mtr><mtr><mtd><mn>%s</mn></mtd><mtd><mn>%s</mn></mtd></mtr></mtable><mo>)</mo></mrow>" % (a, b, c, d)), [a, b, c, d]))
     ex.append((X.math("<mrow><mi>f</mi><mo>&#x2061;</mo><mrow><mo>(</mo><mn>%s</mn><mo>,</mo><mn>%s</mn><mo>)</mo></mrow><mo>=</mo><mfrac><mn>%s</mn><mn>%s</mn></mfrac></mrow>" % (a, b, c, d)), [a, b, c, d]))
+    # the notations the intent / braille rules recognise, with decimal and with integer literals at their operand positions
+    from . import notations as NT
+    for integers in (False, True):
+        for _, body, lits in NT.instances(".", integers):
+            ex.append((X.math(body), lits))
     return ex
 
 
